@@ -392,7 +392,7 @@ func runRace(c RaceCase) (pbt.Outcome, error) {
 func TestRace(t *testing.T) {
 	pbt.Main(t, pbt.Prop[RaceCase]{
 		ID: "C14", Name: "race",
-		Rule: "free-running mode (real parallelism, built with -race, hooks inject seeded Gosched perturbation): 2..10 goroutines each repeat 1..30 (or 100..300) calls of one kind (counter, gauge, timer, ReportSamples on ONE shared histogram-bucket handle, Flush, Allocate+report of counters, of value and of duration histograms under one shared tag set) while another goroutine calls Close (at once or after 20us..1ms) and then Close again, optionally with the destination socket closed mid-run or before the first call (send errors); both protocols; queue 1/2/64. Oracle: no panic, all calls return within 30s, first Close nil and second Close an error, no reporter goroutine left, calls after Close are harmless, and no race-detector report. Non-trivial: >=2 goroutines share the bucket handle, or Close races the producers within 200us.",
+		Rule: "free-running mode (real parallelism, built with -race, hooks inject seeded Gosched perturbation, also in the batching goroutine between counting a batch's metrics and counting the batch): 2..10 goroutines each repeat 1..30 (or 100..300) calls of one kind (counter, gauge, timer, ReportSamples on ONE shared histogram-bucket handle, Flush, Allocate+report of counters, of value and of duration histograms under one shared tag set) while another goroutine calls Close (at once or after 20us..1ms) and then Close again, optionally with the destination socket closed mid-run or before the first call (send errors); both protocols; queue 1/2/64. Oracle: no panic, all calls return within 30s, first Close nil and second Close an error, no reporter goroutine left, calls after Close are harmless, and no race-detector report. Non-trivial: >=2 goroutines share the bucket handle, or Close races the producers within 200us.",
 		Gen:  genRace, Run: runRace,
 		// the schedule is not part of the case: a replay (and, after a first failure, every shrink
 		// candidate) is run up to Retries times and fails if any run fails
